@@ -745,4 +745,190 @@ theorem setupPackageData_perm (n : String) (w w' : List WalkDir) (h : w'.Perm w)
   intro k _
   rw [sortStr_perm _ _ ((hp.filter _).map _)]
 
+
+/-! ## the builder's own call sequence has distinct targets under ConfigDistinct -/
+
+theorem under_append (d x : String) : under d (d ++ "/" ++ x) = true := by
+  unfold under
+  rw [List.isPrefixOf_iff_prefix]
+  refine ⟨x.toList, ?_⟩
+  simp [String.toList_append]
+
+theorem under_scripts (d b : String) : under d (d ++ "/scripts/" ++ b) = true := by
+  unfold under
+  rw [List.isPrefixOf_iff_prefix]
+  refine ⟨"scripts/".toList ++ b.toList, ?_⟩
+  simp [String.toList_append]
+
+theorem under_incomparable (d e t : String) (h1 : under d t = true) (h2 : under e t = true) :
+    under d (e ++ "/") = true ∨ under e (d ++ "/") = true := by
+  unfold under at *
+  rw [List.isPrefixOf_iff_prefix] at *
+  rcases List.prefix_or_prefix_of_prefix h1 h2 with h | h
+  · left; simpa [String.toList_append] using h
+  · right; simpa [String.toList_append] using h
+
+theorem sortBy_perm_self {α : Type} (key : α → PathKey) (l : List α) : (sortBy key l).Perm l := by
+  unfold sortBy; exact List.mergeSort_perm _ _
+
+theorem wheelOps_targets_perm (p : WheelPlan) :
+    ((wheelOps p).map Op.target).Perm (bodyTargets p ++ scriptTargets p ++ diTargets p) := by
+  unfold wheelOps
+  rw [List.map_append, List.map_append]
+  apply List.Perm.append
+  · apply List.Perm.append
+    · unfold bodyTargets
+      cases p.editable
+      · simp only [Bool.false_eq_true, if_false]
+        unfold copyModuleOps
+        rw [if_pos gen_sorted.1, List.map_map]
+        exact (sortBy_perm_self _ _).map _
+      · simp [Op.target]
+    · unfold copyFileScriptsOps scriptTargets
+      rw [List.map_map]; exact List.Perm.refl _
+  · unfold copyDistInfoOps diTargets
+    rw [if_pos gen_sorted.2.1, List.map_map]
+    exact (sortBy_perm_self _ _).map _
+
+theorem nodup_map_append_left (pre : String) (l : List String) (h : l.Nodup) : (l.map (fun x => pre ++ x)).Nodup := by
+  induction l with
+  | nil => simp
+  | cons a as ih =>
+    rw [List.nodup_cons] at h
+    rw [List.map_cons, List.nodup_cons]
+    refine ⟨?_, ih h.2⟩
+    intro hm
+    rw [List.mem_map] at hm
+    obtain ⟨b, hb, e⟩ := hm
+    have : b = a := (String.append_right_inj pre).1 e
+    subst this; exact h.1 hb
+
+theorem builder_distinct_targets (p : WheelPlan) (h : ConfigDistinct p) : DistinctTargets p.distInfo (wheelOps p) := by
+  obtain ⟨hb, hbu, hs, hd, hrec, hinc1, hinc2⟩ := h
+  have hsT : (scriptTargets p).Nodup := by
+    unfold scriptTargets
+    have := nodup_map_append_left (p.dataFolder ++ "/scripts/") _ hs
+    rw [List.map_map] at this; exact this
+  have hdT : (diTargets p).Nodup := by
+    unfold diTargets
+    have := nodup_map_append_left (p.distInfo ++ "/") _ hd
+    rw [List.map_map] at this; exact this
+  have us : ∀ t ∈ scriptTargets p, under p.dataFolder t = true := by
+    intro t ht; unfold scriptTargets at ht; rw [List.mem_map] at ht
+    obtain ⟨s, _, rfl⟩ := ht; exact under_scripts _ _
+  have ud : ∀ t ∈ diTargets p, under p.distInfo t = true := by
+    intro t ht; unfold diTargets at ht; rw [List.mem_map] at ht
+    obtain ⟨f, _, rfl⟩ := ht; exact under_append _ _
+  have incomp : ∀ t, under p.dataFolder t = true → under p.distInfo t = true → False := by
+    intro t h1 h2
+    rcases under_incomparable _ _ _ h1 h2 with h | h
+    · rw [hinc2] at h; cases h
+    · rw [hinc1] at h; cases h
+  have hall : (bodyTargets p ++ scriptTargets p ++ diTargets p).Nodup := by
+    rw [List.nodup_append]
+    refine ⟨?_, hdT, ?_⟩
+    · rw [List.nodup_append]
+      refine ⟨hb, hsT, ?_⟩
+      intro a ha b hb' e; subst e
+      have := (hbu a ha).1; rw [us a hb'] at this; cases this
+    · intro a ha b hb' e; subst e
+      rw [List.mem_append] at ha
+      rcases ha with ha | ha
+      · have := (hbu a ha).2; rw [ud a hb'] at this; cases this
+      · exact incomp a (us a ha) (ud a hb')
+  have hrecT : recordPath p.distInfo ∉ bodyTargets p ++ scriptTargets p ++ diTargets p := by
+    have ur : under p.distInfo (recordPath p.distInfo) = true := by
+      unfold recordPath; rw [gen_recordSuffix]
+      have := under_append p.distInfo "RECORD"
+      have e : p.distInfo ++ "/" ++ "RECORD" = p.distInfo ++ "/RECORD" := by
+        rw [String.append_assoc]; rfl
+      rw [e] at this; exact this
+    intro hm
+    rw [List.mem_append, List.mem_append] at hm
+    rcases hm with (hm | hm) | hm
+    · have := (hbu _ hm).2; rw [ur] at this; cases this
+    · exact incomp _ (us _ hm) ur
+    · unfold diTargets at hm; rw [List.mem_map] at hm
+      obtain ⟨f, hf, e⟩ := hm
+      unfold recordPath at e; rw [gen_recordSuffix] at e
+      have e' : p.distInfo ++ "/" ++ posix f.rel = p.distInfo ++ "/" ++ "RECORD" := by
+        rw [e, String.append_assoc]; rfl
+      have := (String.append_right_inj (p.distInfo ++ "/")).1 e'
+      exact hrec (List.mem_map.2 ⟨f, hf, this⟩)
+  have perm := wheelOps_targets_perm p
+  exact ⟨perm.nodup_iff.2 hall, fun hm => hrecT (perm.mem_iff.1 hm)⟩
+
+
+/-! ## glob rules that avoid a top-level directory select nothing below it -/
+
+theorem matchSegs_not_reached (pat : Select.Pattern) (D : String) (h : patternReaches pat D = false)
+    (isDir : Bool) (rest : List String) : Select.matchSegs pat.dirOnly isDir pat.segs (D :: rest) = false := by
+  unfold patternReaches at h
+  cases hs : pat.segs with
+  | nil => rw [hs] at h; cases h
+  | cons s ss =>
+    rw [hs] at h
+    cases s with
+    | dstar => cases h
+    | wild w => simp only at h; simp [Select.matchSegs, h]
+
+theorem matchSegs_nil_wild (pat : Select.Pattern) (D : String) (h : patternReaches pat D = false) (isDir : Bool) :
+    Select.matchSegs pat.dirOnly isDir pat.segs [] = false := by
+  unfold patternReaches at h
+  cases hs : pat.segs with
+  | nil => rw [hs] at h; cases h
+  | cons s ss =>
+    rw [hs] at h
+    cases s with
+    | dstar => cases h
+    | wild w => simp [Select.matchSegs]
+
+theorem sel_avoided (g : GlobSpec) (D : String) (h : g.avoids D = true) (x : String) (rest : List String) :
+    g.sel (D :: x :: rest) = false := by
+  unfold GlobSpec.sel
+  unfold GlobSpec.avoids at h
+  cases hb : g.base with
+  | nil =>
+    rw [hb] at h
+    have hr : patternReaches g.pat D = false := by simpa using h
+    simp only [Select.stripBase]
+    have h1 : Select.globMatch g.pat (D :: x :: rest) false = false := matchSegs_not_reached g.pat D hr false _
+    have h2 : ((List.range (D :: x :: rest).length).any fun k => Select.globMatch g.pat ((D :: x :: rest).take k) true) = false := by
+      rw [List.any_eq_false]
+      intro k _
+      cases k with
+      | zero => simpa [Select.globMatch] using matchSegs_nil_wild g.pat D hr true
+      | succ k => simpa [Select.globMatch] using matchSegs_not_reached g.pat D hr true _
+    rw [h1, h2]; simp
+  | cons b bs =>
+    rw [hb] at h
+    have : (b == D) = false := by simpa using h
+    simp [Select.stripBase, this]
+
+theorem sel_pycache (g : GlobSpec) (p : PathKey) (h : p.contains Gen.pycacheDirName = true) : g.sel p = false := by
+  unfold GlobSpec.sel; simp only [h, Bool.not_true, Bool.false_and]
+
+theorem sel_leftover (g : GlobSpec) (tops : List String) (hav : ∀ D ∈ tops, g.avoids D = true) (p : PathKey)
+    (hl : isLeftover tops p = true) : g.sel p = false := by
+  unfold isLeftover at hl
+  by_cases hp : p.contains Gen.pycacheDirName = true
+  · exact sel_pycache g p hp
+  · simp only [hp, Bool.false_or] at hl
+    match p, hl with
+    | D :: x :: rest, hl =>
+      have : D ∈ tops := by simpa using hl
+      exact sel_avoided g D (hav D this) x rest
+
+theorem wheelOps_length (p : WheelPlan) (he : p.editable = false) :
+    (wheelOps p).length = p.toAdd.length + p.scripts.length + p.diFiles.length := by
+  unfold wheelOps copyModuleOps copyFileScriptsOps copyDistInfoOps
+  simp only [he, Bool.false_eq_true, if_false, List.length_append, List.length_map, if_pos gen_sorted.1, if_pos gen_sorted.2.1]
+  rw [(sortBy_perm_self _ _).length_eq, (sortBy_perm_self _ _).length_eq]
+
+theorem describeWheel_none_length (H : String → String) (p : WheelPlan) (he : p.editable = false) :
+    ∃ es, describeWheel H none p = .ok es ∧ es.length = p.toAdd.length + p.scripts.length + p.diFiles.length + 1 := by
+  refine ⟨(buildWheel H p).members.map fun m => ⟨m, wheelDefault⟩, rfl, ?_⟩
+  rw [List.length_map, buildWheel_members, List.length_append, List.length_map, wheelOps_length p he]
+  rfl
+
 end Poetry.Build
